@@ -116,6 +116,21 @@ def valid_type(dtype):
     return False
 
 
+def normalize_type(dtype):
+    """
+    Returns the spelling of a valid *dtype* that the conversion functions are
+    registered with: valid_type ignores case, the lookup of the conversion
+    functions does not.
+
+    :param dtype: odml.DType or string for which valid_type returned True, or None.
+    :returns: odml.DType, lower case string or None.
+    """
+    if dtype is None or isinstance(dtype, DType):
+        return dtype
+
+    return dtype.lower()
+
+
 def get(string, dtype=None):
     """
     Converts *string* to the corresponding *dtype*.
